@@ -2,12 +2,16 @@
 C18 — resource store: version CAS, stable UIDs, ordered watches.
 Property theorems only; helper lemmas live in CV/Proofs/Res*.lean.
 
+Part D  watches: the store + the event publisher (FIFO publish channel drained by `pump`, subject buffers,
+        snapshot cache) + `Watch.Next`, for ALL interleavings of store calls, watcher calls and publisher
+        steps (an operation sequence of `World` is such an interleaving)
 Part A  the sequential specification (`specStep`: `DB.writeCAS`, `DB.deleteCAS`, `DB.read`, …), which is
         also what a linearizable concurrent history is linearizable *to*
 Part B  the linearizability checker used on the recorded concurrent histories
 -/
 import CV.Proofs.Res
 import CV.Proofs.ResProto
+import CV.Proofs.ResWatch
 namespace CV.Res
 open Lin
 
@@ -163,5 +167,140 @@ example : (run true PState.init [.lock 0, .lock 1, .commit 0, .commit 1, .publis
     .lock 1, .commit 1, .publish 1, .unlock 1, .dispatch, .readAfterEvent 7]).seen = [(7, [0], [0, 1])] := by decide
 
 end Proto
+
+/-! ## Part D — watches: complete listing, then the events in commit order -/
+
+/-- what `Watch.Next` returns out of a snapshot batch: exactly the listed resources that match the
+    watch's query, as upserts, in key order, then EndOfSnapshot -/
+theorem snapshot_is_listing (q sq : Query) (db : DB) :
+    vis q (snapshotBatch db sq) = ((list db.rows sq).filter q.matches).map .upsert ++ [.eos] := by
+  have h1 : ∀ l : List Res, vis q (l.map fun r => (⟨db.evIdx, .upsert r⟩ : Ev)) = (l.filter q.matches).map .upsert := by
+    intro l
+    induction l with
+    | nil => rfl
+    | cons r rs ih =>
+      simp only [List.map_cons, vis, List.filter_cons, delivers, WEv.res?] at ih ⊢
+      split <;> simp_all
+  simp only [snapshotBatch, vis_append, h1]
+  congr 1
+
+/-- **What a watcher receives (the code as it is).** After any sequence of operations without a restore —
+    i.e. for every interleaving of writers, deleters, readers, watchers and the publisher goroutine — every
+    watch has received a prefix of: the listing of the store as it was after `gP` commits (`gP` ≤ now),
+    EndOfSnapshot, then *every* event dispatched for its subject from dispatch position `gD ≤ gP` on, each
+    once and in commit order, filtered by its query. For a watch that is still open nothing is lost:
+    delivered ++ what is still queued in front of it is exactly that sequence. -/
+theorem watch_stream_faithful (ops : List WOp) (hr : RestoreFree ops) (wt : Watch)
+    (hwt : wt ∈ (World.init.run ops).watches) :
+    wt.gD ≤ wt.gP ∧ wt.gP ≤ (World.init.run ops).log.length ∧
+    (wt.released = false →
+      wt.gDelivered ++ vis wt.q (wt.stream ((World.init.run ops).bufOf wt)) =
+        expected (World.init.run ops).disp (World.init.run ops).log wt) ∧
+    wt.gDelivered <+: expected (World.init.run ops).disp (World.init.run ops).log wt :=
+  winv_watch (winv_run ops _ winv_init hr) wt hwt
+
+/-- **Complete initial listing, then exactly the later events — partial.** If at every `WatchList` of the
+    run the publisher had caught up (publish queue empty), then `gD = gP` for every watch: after
+    EndOfSnapshot it receives exactly the events committed after its snapshot — none from before.
+    The full statement (without the hypothesis) is false for the code as it is: see
+    `watch_complete_then_ordered_counterexample`. -/
+theorem watch_complete_then_ordered_partial (ops : List WOp) (hr : RestoreFree ops)
+    (hq : QuiescentOpens World.init ops) (wt : Watch) (hwt : wt ∈ (World.init.run ops).watches) :
+    wt.gD = wt.gP ∧
+    wt.gDelivered <+:
+      ((list (replay ((World.init.run ops).log.take wt.gP)) wt.gSq).filter wt.q.matches).map .upsert ++ [.eos] ++
+      vis wt.q ((((World.init.run ops).disp).drop wt.gP).flatMap (hitsOf wt.subj)) := by
+  have hi := winv_run ops _ winv_init hr
+  have hns := noStale_run ops _ winv_init (by constructor <;> simp [World.init]) hr hq
+  have hgd := hns.2 wt hwt
+  refine ⟨hgd, ?_⟩
+  have := (winv_watch hi wt hwt).2.2.2
+  rw [expected, snapshot_is_listing, hgd] at this
+  exact this
+
+/-- The events a watcher gets after its snapshot come from a prefix of the commit log, whose event
+    indexes are 3, 4, 5, … — strictly increasing, per resource and overall; with `gD = gP` all of them are
+    greater than the snapshot index `gP + 2`. -/
+theorem events_strictly_increasing (ops : List WOp) (hr : RestoreFree ops) :
+    ((World.init.run ops).log.map (·.idx)).Pairwise (· < ·) ∧
+    (World.init.run ops).disp <+: (World.init.run ops).log ∧
+    (World.init.run ops).db.evIdx = (World.init.run ops).log.length + 2 ∧
+    (World.init.run ops).log.map (·.idx) = List.range' 3 (World.init.run ops).log.length := by
+  have hi := winv_run ops _ winv_init hr
+  refine ⟨?_, List.take_prefix _ _, hi.evIdx, hi.logIdx⟩
+  rw [hi.logIdx]
+  exact List.pairwise_lt_range'
+
+/-- **Read after event.** The store always holds the result of *all* committed events: a read of `k`
+    returns the value left by the last committed event on `k` … -/
+theorem read_reflects_all_commits (ops : List WOp) (hr : RestoreFree ops) (k : Bytes) :
+    lookup k (World.init.run ops).db.rows = (World.init.run ops).log.foldl (stepLast k) none := by
+  have hi := winv_run ops _ winv_init hr
+  rw [hi.rows, replay, lookup_foldl_applyEv]
+  rfl
+
+/-- … every event a watcher has received after its snapshot is one of those committed events … -/
+theorem delivered_events_committed (ops : List WOp) (hr : RestoreFree ops) (wt : Watch)
+    (hwt : wt ∈ (World.init.run ops).watches) (x : WEv) (hx : x ∈ wt.gDelivered) :
+    x ∈ vis wt.q (snapshotBatch ⟨replay ((World.init.run ops).log.take wt.gP), wt.gP + 2⟩ wt.gSq) ∨
+    ∃ e ∈ (World.init.run ops).log, e.ev = x := by
+  have hi := winv_run ops _ winv_init hr
+  have hp := (winv_watch hi wt hwt).2.2.2
+  rcases List.mem_append.mp (hp.subset hx) with h | h
+  · exact Or.inl h
+  · right
+    simp only [vis, List.mem_map, List.mem_filter, List.mem_flatMap, hitsOf] at h
+    obtain ⟨e, ⟨⟨e0, he0, he⟩, _⟩, rfl⟩ := h
+    obtain ⟨_, _, rfl⟩ := he
+    exact ⟨e0, (List.take_prefix _ _).subset (List.mem_of_mem_drop he0), rfl⟩
+
+/-- … so the read is never older than a received event `e`: its result is determined by `e` and the
+    events committed after `e` alone (whatever happened before `e` is irrelevant). -/
+theorem read_not_older_than_event (k : Bytes) (a b : List Ev) (e : Ev) (he : onKey k e = true) :
+    lookup k (replay (a ++ e :: b)) = b.foldl (stepLast k) (stepLast k none e) := by
+  rw [replay, lookup_foldl_applyEv, List.foldl_append, List.foldl_cons]
+  rw [stepLast_onKey he _ none]
+
+/-! ### the full statement fails for the code as it is (known findings), concrete witnesses -/
+
+section watchExamples
+def wId (uid : Bytes) : RID := ⟨⟨[100], [1], [97]⟩, ⟨[100], [100]⟩, [120], uid⟩
+def wQ : Query := ⟨[100], [97], [100], [100], []⟩
+
+/-- known finding `watch:stale-event-after-snapshot`: two commits, `WatchList` before the publisher
+    dispatched them, then the publisher runs -/
+def exLag : List WOp :=
+  [.swrite ⟨wId [1], none, "1", 0⟩ "", .swrite ⟨wId [1], none, "2", 1⟩ "1", .wopen wQ,
+   .wnext 0, .wnext 0, .pump, .pump, .wnext 0, .wnext 0]
+
+/-- The full-strength statement "after EndOfSnapshot only events committed after the snapshot" is false:
+    the watcher receives x@"2" (snapshot), EndOfSnapshot, then x@"1" — older than its snapshot — and x@"2". -/
+theorem watch_complete_then_ordered_counterexample :
+    RestoreFree exLag ∧
+    (World.init.run exLag).watches.map (fun wt => (wt.gD, wt.gP, wt.gDelivered)) =
+      [(0, 2, [.upsert ⟨wId [1], none, "2", 1⟩, .eos, .upsert ⟨wId [1], none, "1", 0⟩, .upsert ⟨wId [1], none, "2", 1⟩])] := by
+  constructor
+  · simp only [exLag, RestoreFree]
+  · decide
+
+/-- the hypothesis of the partial theorem is satisfiable and then the stream is the expected one -/
+def exQuiet : List WOp :=
+  [.swrite ⟨wId [1], none, "1", 0⟩ "", .pump, .wopen wQ, .wnext 0, .wnext 0,
+   .swrite ⟨wId [1], none, "2", 1⟩ "1", .pump, .wnext 0, .delete (wId [1]) "2", .pump, .wnext 0]
+example : RestoreFree exQuiet ∧ QuiescentOpens World.init exQuiet := by
+  simp only [exQuiet, RestoreFree, QuiescentOpens]; decide
+example : (World.init.run exQuiet).watches.map (·.gDelivered) =
+    [[.upsert ⟨wId [1], none, "1", 0⟩, .eos, .upsert ⟨wId [1], none, "2", 1⟩, .delete ⟨wId [1], none, "2", 1⟩]] := by decide
+
+/-- known finding `watch:pre-restore-event-after-snapshot`: with a restore in the middle the theorems above
+    do not apply, and indeed a watch opened after the restore receives an event of the old world, which a
+    read then does not find. -/
+def exRestore : List WOp :=
+  [.swrite ⟨wId [1], none, "1", 0⟩ "", .restore [], .wopen wQ, .pump, .wnext 0, .wnext 0]
+theorem watch_restore_counterexample :
+    (World.init.run exRestore).watches.map (·.gDelivered) = [[.eos, .upsert ⟨wId [1], none, "1", 0⟩]] ∧
+    (World.init.run exRestore).db.read (wId []) = .notFound := by
+  constructor <;> decide
+end watchExamples
 
 end CV.Res
